@@ -15,7 +15,7 @@ use refimpl::server::{apply_fault, FaultKind};
 use serde::{Deserialize, Serialize};
 
 pub const LEVEL: &str = "fault_enumeration";
-pub const RULE: &str = "faults injected into valid CredSSP / NTLM server messages; cssp-stream: cssp_connect over a scripted raw stream whose first TSRequest has a size on and around the client's 1500-byte read size and its multiples with DER headers announcing less / exactly / more, served whole, in pieces or byte by byte, then end of stream (spin = more than 64 reads at end of stream); big-target-info: well-formed CHALLENGEs whose target information has every total length in 64936..=65535 (and a coarse sweep below) read with identities of four sizes. direct entries Ntlm::read_challenge_message, cssp::read_ts_server_challenge, cssp::read_ts_validate, gss_unwrapex: every scalar field of a CHALLENGE (all 16-bit lengths and 32-bit offsets at their boundaries, flags, every AvId 0..0x20 and 0xffff, AV lengths) swept over boundary values (field-sweep, enumerated over several challenge layouts incl. missing timestamp, missing EOL, zero-length target info), truncation at every byte, extensions, xor corruption and double faults (generated); TSRequest trees with empty / multiple / missing negoTokens, wrong tags, BER forms; all byte strings of length <= 2 (3 thorough) at each entry. tls section: whole NLA handshakes through Connector::connect where the server's CHALLENGE TSRequest or final reply is replaced by a faulty one. Oracle: Ok or Err, never a panic / spin / disproportionate allocation. Non-trivial = the message differs from a conforming one; distinct by hash of the case.";
+pub const RULE: &str = "faults injected into valid CredSSP / NTLM server messages; cssp-stream: cssp_connect over a scripted raw stream whose first TSRequest has a size on and around the client's 1500-byte read size and its multiples with DER headers announcing less / exactly / more, served whole, in pieces or byte by byte, then end of stream (spin = more than 64 reads at end of stream); sealed-sequences: several correctly sealed tokens with increasing / repeated / decreasing / wrapping sequence numbers on one context; accepted CHALLENGEs are followed by what cssp_connect does next (credential getters, build_security_interface, one wrap) under ASCII, Latin-1, CJK, supplementary-plane and empty identities; big-target-info: well-formed CHALLENGEs whose target information has every total length in 64936..=65535 (and a coarse sweep below) read with identities of four sizes. direct entries Ntlm::read_challenge_message, cssp::read_ts_server_challenge, cssp::read_ts_validate, gss_unwrapex: every scalar field of a CHALLENGE (all 16-bit lengths and 32-bit offsets at their boundaries, flags, every AvId 0..0x20 and 0xffff, AV lengths) swept over boundary values (field-sweep, enumerated over several challenge layouts incl. missing timestamp, missing EOL, zero-length target info), truncation at every byte, extensions, xor corruption and double faults (generated); TSRequest trees with empty / multiple / missing negoTokens, wrong tags, BER forms; all byte strings of length <= 2 (3 thorough) at each entry. tls section: whole NLA handshakes through Connector::connect where the server's CHALLENGE TSRequest or final reply is replaced by a faulty one. Oracle: Ok or Err, never a panic / spin / disproportionate allocation. Non-trivial = the message differs from a conforming one; distinct by hash of the case.";
 
 #[derive(Serialize, Deserialize, Hash, Clone, Debug)]
 pub enum Case {
@@ -29,6 +29,9 @@ pub enum Case {
     Sealed { msg_len: u16, fault: Option<FaultKind>, via_ts_validate: bool },
     /// a well-formed CHALLENGE whose target information is `total` bytes long (one big pair + timestamp + EOL), read with identities of different sizes
     BigInfo { total: u16, ident: u8, version: bool, unicode: bool },
+    /// several correctly sealed server tokens on one security context, with these sequence numbers and lengths
+    /// (increasing, repeated, decreasing, wrapping): none may panic
+    SealedSeq { seqs: Vec<u32>, lens: Vec<u8> },
     /// cssp_connect over a raw scripted stream: the server's first TSRequest arrives as `data` cut by `schedule`, then end of stream
     Stream { data: Vec<u8>, schedule: Vec<u16> },
 }
@@ -61,9 +64,27 @@ fn guard_entry(out: &mut Outcome, name: &str, n: usize, f: impl FnOnce() -> rdp:
 fn entry_call(out: &mut Outcome, entry: u8, data: &[u8]) {
     match entry % 4 {
         0 => guard_entry(out, "read_challenge_message", data.len(), || {
-            let mut n = Ntlm::new("dom".into(), "user".into(), "pass".into());
+            // the identity is a pure function of the message: ASCII, Latin-1, CJK, supplementary-plane and empty strings
+            // (a CHALLENGE may select the OEM character set, in which wide characters have no encoding)
+            let h = data.iter().fold(data.len() as u32, |a, b| a.wrapping_mul(31).wrapping_add(*b as u32));
+            let (d, u, p) = match h % 8 {
+                0 | 1 => ("dom", "user", "pass"),
+                2 => ("dom", "\u{7528}\u{6237}", "pass"),
+                3 => ("\u{57DF}\u{540D}", "user", "pass"),
+                4 => ("dom", "user", "\u{5BC6}\u{7801}-\u{1F511}"),
+                5 => ("d\u{F6}m", "\u{FC}ser", "p\u{E4}ss"),
+                6 => ("", "", ""),
+                _ => ("\u{10000}", "\u{FFFF}\u{100}", "\u{FF}\u{100}"),
+            };
+            let mut n = Ntlm::new(d.into(), u.into(), p.into());
             n.create_negotiate_message()?;
-            n.read_challenge_message(data).map(|_| ())
+            n.read_challenge_message(data)?;
+            // what cssp_connect does next with an accepted CHALLENGE
+            let _ = n.get_domain_name();
+            let _ = n.get_user_name();
+            let _ = n.get_password();
+            let mut si = n.build_security_interface();
+            si.gss_wrapex(b"public key").map(|_| ())
         }),
         1 => guard_entry(out, "read_ts_server_challenge", data.len(), || cssp::read_ts_server_challenge(data).map(|_| ())),
         2 => guard_entry(out, "read_ts_validate", data.len(), || cssp::read_ts_validate(data).map(|_| ())),
@@ -131,6 +152,29 @@ pub fn run(c: &Case) -> Outcome {
             } else {
                 entry_call(&mut out, 3, &bytes);
             }
+        }
+        Case::SealedSeq { seqs, lens } => {
+            out.label("sealed-sequence");
+            out.nontrivial(seqs.len() >= 2);
+            let mut server = refimpl::crypto::SealCtx::new(&[2u8; 16], b"fedcba9876543210");
+            let tokens: Vec<Vec<u8>> = seqs
+                .iter()
+                .enumerate()
+                .map(|(i, q)| {
+                    server.seq = *q;
+                    let l = lens.get(i).copied().unwrap_or(8) as usize;
+                    server.seal(&engine::src::expand(i as u32 + 1, l))
+                })
+                .collect();
+            let total: usize = tokens.iter().map(|t| t.len()).sum();
+            guard_entry(&mut out, "gss_unwrapex(sequence)", total, move || {
+                let mut si = NTLMv2SecurityInterface::new(Rc4::new(b"0123456789abcdef"), Rc4::new(b"fedcba9876543210"), vec![1; 16], vec![2; 16]);
+                for t in &tokens {
+                    // results are free (a context may refuse a replayed number); only panics count
+                    let _ = si.gss_unwrapex(t);
+                }
+                Ok(())
+            });
         }
         Case::BigInfo { total, ident, version, unicode } => {
             out.label("big-target-info");
@@ -353,7 +397,22 @@ fn gen_tree(s: &mut Src) -> Node {
 }
 
 pub fn decode(s: &mut Src) -> Case {
-    match s.below(13) {
+    match s.below(14) {
+        13 => {
+            let n = 1 + s.below(6);
+            let mut seqs = Vec::new();
+            let mut cur = s.b32();
+            for _ in 0..n {
+                seqs.push(cur);
+                cur = match s.below(5) {
+                    0 => cur,
+                    1 => cur.wrapping_sub(1 + s.below(5) as u32),
+                    2 => s.b32(),
+                    _ => cur.wrapping_add(1 + s.below(3) as u32),
+                };
+            }
+            Case::SealedSeq { seqs, lens: (0..n).map(|_| s.below(40) as u8).collect() }
+        }
         11 => Case::BigInfo { total: if s.bool() { 65535 - s.below(700) as u16 } else { s.u16() }, ident: s.u8(), version: s.bool(), unicode: s.chance(200) },
         12 => {
             // a stream whose length is near a multiple of the 1500-byte read size, DER-framed or free
@@ -528,6 +587,17 @@ pub fn check(rep: &Report) {
     let tier = rep.tier;
     rep.enumerate("field-sweep", true, move |p, n| sweep(tier, p, n), run);
     rep.list("cssp-stream", stream_cases(), run);
+    // every ordered pair and some triples of sequence numbers around 0, 1, 2^31, 2^32-1 on one context
+    let mut sq = Vec::new();
+    let vals = [0u32, 1, 2, 3, 7, 0x7FFF_FFFF, 0x8000_0000, 0xFFFF_FFFE, 0xFFFF_FFFF];
+    for a in vals {
+        for b in vals {
+            sq.push(Case::SealedSeq { seqs: vec![a, b], lens: vec![5, 9] });
+            sq.push(Case::SealedSeq { seqs: vec![a, b, a], lens: vec![0, 1, 2] });
+            sq.push(Case::SealedSeq { seqs: vec![0, a, b, 0], lens: vec![3, 3, 3, 3] });
+        }
+    }
+    rep.list("sealed-sequences", sq, run);
     rep.enumerate("big-target-info", true, big_info, run);
     rep.random("faults", rep.tier.n(400_000, 10_000_000), 160, decode, run);
     rep.random("tls", rep.tier.n(600, 20_000), 200, decode_tls, run);
